@@ -9,7 +9,7 @@ SPEC = {
     "gen": ["Rotations", "GetHkl", "SolverLeaf", "UtilLeaf", "SolverDispatch"],
     "modules": ["DiffcalcProofs.Props.C03", "DiffcalcProofs.Props.C03Sample", "DiffcalcProofs.Props.C03Sample2", "DiffcalcProofs.Props.C03Sample3",
                 "DiffcalcProofs.Props.C03Sample4", "DiffcalcProofs.Props.C03Sample5", "DiffcalcProofs.Props.C03Sample6", "DiffcalcProofs.Props.C03Sample7",
-                "DiffcalcProofs.Props.C03Sample8", "DiffcalcProofs.Props.C03Sample9", "DiffcalcProofs.Props.C03Sample10", "DiffcalcProofs.Props.C03Assembly", "DiffcalcProofs.Props.C03Detector", "DiffcalcProofs.Props.C03Reference", "DiffcalcProofs.Props.C03Assembly2", "DiffcalcProofs.Props.C03Assembly3", "DiffcalcProofs.Props.TieSolver"],
+                "DiffcalcProofs.Props.C03Sample8", "DiffcalcProofs.Props.C03Sample9", "DiffcalcProofs.Props.C03Sample10", "DiffcalcProofs.Props.C03Assembly", "DiffcalcProofs.Props.C03Detector", "DiffcalcProofs.Props.C03Reference", "DiffcalcProofs.Props.C03Assembly2", "DiffcalcProofs.Props.C03Assembly3", "DiffcalcProofs.Props.TieSolver", "DiffcalcProofs.Props.C03Assembly4"],
     "theorems": {"DiffcalcProofs.Props.TieSolver": ["TieSolver.phiAndQaz_generated", "TieSolver.chiAndQaz_generated", "TieSolver.qazValue_generated", "TieSolver.small_generated", "TieSolver.bound_generated", "TieSolver.sign_generated", "TieSolver.sampleFromChiEta_generated", "TieSolver.detFromQaz_generated", "TieSolver.anglesEquivalent_generated", "TieSolver.refConChiMu_generated", "TieSolver.refConMuPhi_generated", "TieSolver.refConEtaPhi_generated", "TieSolver.refConChiPhi_generated", "TieSolver.sampleConPhi_generated", "TieSolver.sampleConChi_generated", "TieSolver.sampleConEta_generated", "TieSolver.sampleConMuChi_generated", "TieSolver.sampleConEtaPhi_generated", "TieSolver.sampleConEtaChi_generated", "TieSolver.sampleConMuPhi_generated", "TieSolver.sampleConMuEta_generated", "TieSolver.detFromDelta_generated", "TieSolver.detFromNu_generated", "TieSolver.sampleConMu_generated", "TieSolver.refConMuEta_generated", "TieSolver.refConChiEta_generated", "TieSolver.sampleConChiPhi_generated", "TieSolver.sampleConOmegaBisect_generated", "TieSolver.sampleConMuBisect_generated", "TieSolver.sampleConEtaBisect_generated", "TieSolver.twoSampleDetector_generated", "TieSolver.twoSampleReference_generated"],
         "DiffcalcProofs.Props.C03": [
         "C03.detFromQaz_complete", "C03.filter_keeps_exact", "C03.hklMatches_exact", "C03.allOrNothing",
